@@ -36,6 +36,7 @@
 #include <morfuse/Common/OutputInfo.h>
 #include "lineio.h"
 
+#include <csignal>
 #include <sstream>
 #include <set>
 #include <map>
@@ -168,6 +169,12 @@ void onDeath()
     say(g_static + dynamicPart() + " runs=" + g_runs + "crash nprobe=" + std::to_string(g_nprobe) + " stale=" + std::to_string(g_stale) + " nwarn=0 crash=" + last);
 }
 
+void onAbort(int)
+{
+    onDeath();
+    std::_Exit(98);
+}
+
 std::string unhex(const std::string& h)
 {
     std::string s;
@@ -238,6 +245,8 @@ int main()
 {
     verif::now_ms = &clockFn;
     __sanitizer_set_death_callback(&onDeath);
+    // UBSan's own reports do not run the death callback: the check runs with UBSAN_OPTIONS=abort_on_error=1
+    std::signal(SIGABRT, &onAbort);
     std::vector<std::string> t;
     while (readTokens(t)) {
         if (t.size() < 2 || t[0] != "prog") { say("bad-op"); continue; }
